@@ -59,7 +59,7 @@ def shouldRoute (cfg : Cfg) (h : Str) (hdr : Hdr) : Bool :=
 /-- A direct question to the filter is answered (it cannot raise: `DecObs.answer` is a `Bool`)
     and the answer is the routing rule. -/
 def decisionsOk (cfg : Cfg) (l : List DecObs) : Bool :=
-  l.all fun d => d.answer == shouldRoute cfg d.host d.hdr
+  l.all fun d => if d.fault then !d.answer else d.answer == shouldRoute cfg d.host d.hdr
 
 /-- Reference breaker, driven by what was observed. -/
 structure Ref where
@@ -100,13 +100,17 @@ def noSwallow (o : Obs) : Bool :=
 def cooldownRespected (cfg : Cfg) (r : Ref) (o : Obs) : Bool :=
   !(r.isOpen cfg o.t) || !gwTried o
 
-/-- The gateway is contacted only for destinations it should see. -/
+/-- The gateway is contacted only for destinations it should see, and never on the strength of a
+    lookup that failed. -/
 def filterRespected (cfg : Cfg) (o : Obs) : Bool :=
-  !gwTried o || shouldRoute cfg o.inp.host o.inp.hdr
+  !gwTried o || (shouldRoute cfg o.inp.host o.inp.hdr && !o.fault)
 
-/-- Outside the cool-down a destination that should be routed is tried through the gateway. -/
+/-- Outside the cool-down a destination that should be routed is tried through the gateway — unless
+    the resolver failed transiently during this very call.  A failed lookup is NOT remembered: on the
+    next call (no fault observed then) the destination is routed again.  (`shouldRoute` speaks about
+    the answer the resolver gives once it works, `Cfg.dns`.) -/
 def recovers (cfg : Cfg) (r : Ref) (o : Obs) : Bool :=
-  r.isOpen cfg o.t || !shouldRoute cfg o.inp.host o.inp.hdr || gwTried o
+  r.isOpen cfg o.t || !shouldRoute cfg o.inp.host o.inp.hdr || o.fault || gwTried o
 
 def eventOk (cfg : Cfg) (r : Ref) (o : Obs) : Bool :=
   noSwallow o && cooldownRespected cfg r o && filterRespected cfg o && recovers cfg r o
